@@ -73,7 +73,7 @@ Ref(e)  == Expand(defs, HsAdd(ObjOf(ToSet(e.ign) \ {e.m}), Toks(Call(e))), <<>>)
 Impl(e) == Expand(defs, HsAdd(ObjOf(ToSet(e.ign) \cup {e.m}), Toks(e.result)), <<>>)
 Unreadable(e) == Reach(defs, ToSet(Call(e)) \cup ToSet(e.result)) \cap opq # {}
 Skipped(e) == \/ e.skip # "" \/ e.m \notin DOMAIN defs \/ defs[e.m].fn # e.fn \/ Unreadable(e)
-              \/ HasMarker(Ref(e).ts) \/ HasMarker(Impl(e).ts) \/ Ref(e).ev # {}
+              \/ HasMarker(Ref(e).ts) \/ HasMarker(Impl(e).ts) \/ ClassEv(Ref(e).ev) # {}
 
 TExpandSkip == /\ IsE(l, "Expand") /\ Skipped(Tr[l])
                /\ l' = l + 1 /\ nskip' = nskip + 1 /\ UNCHANGED <<defs, pushStack, out, opq, ncmp>>
